@@ -112,7 +112,7 @@ def sigs_of(rec, script=None):
             if d.get("phantomOnly") and d.get("afterDelartInMissing"):
                 sig = "C18/delete-article/missing-category-leaves-phantom-item"
             else:
-                sig = "C18/children/%s" % rec.get("op")
+                sig = "C18/children/%s%s" % (rec.get("op"), "/below-missing-path" if det.get("stale") else "")
             out.append((sig, {"kind": f, "detail": d}))
         elif f == "reload":
             d = det.get("reload", {})
